@@ -175,15 +175,19 @@ CHECKS = {
   'technique': 'Coq emission-discipline theorem (enc = compact text of tokens) with extracted-model correspondence + generated type/value differential against encoding/json',
  },
  'C13': {
-  'text': ("Proof (Coq): the part all variants share -- the compact interpreter writes exactly the compact text of the token sequence a value denotes, the same text "
-           "at top level and in any position inside a buffer, and permuting an object's members permutes the member texts and nothing else. Observed for values of the C01 "
+  'text': ("Proof (Coq): the compact interpreter writes exactly the compact text of the token sequence a value denotes, the same text at top level and in any position "
+           "inside a buffer, and permuting an object's members permutes the member texts and nothing else; the INDENTING interpreter is modelled as well (the helper "
+           "algebra of vm_indent/util.go, bodies copied by the translator on every run): for EVERY prefix, indent string and value it writes the text whose tokens are "
+           "separated by newline + prefix + depth x indent, and with white space as prefix and indent the RFC 8259 recogniser reads from it the same token sequence as from "
+           "the compact text, with nothing left over -- Marshal and MarshalIndent describe the same document (parser completeness for white-space-separated renderings). "
+           "The model is run byte for byte against MarshalIndent (op c13.indent, 8 prefix/indent pairs incl. non-white-space ones). Observed for values of the C01 "
            "type grammar: MarshalIndent(v,p,i) = encoding/json.Indent(Marshal(v),p,i) for 7 prefix/indent pairs incl. multi-byte and empty, Encoder.SetIndent, "
            "Colorize with the empty scheme = Marshal, with a scheme of unique markers = Marshal once the markers are removed (compact and indent), UnorderedMap = same "
            "document up to member order and same length, DisableHTMLEscape = Marshal with the three HTML escapes spelled out, Encoder.Encode / MarshalNoEscape / "
            "MarshalContext / Debug = Marshal, and Marshal(&v), [v] and {i:v} contain Marshal(v) wherever encoding/json itself does not distinguish the positions. "
-           "Partial: the indenting and colouring interpreters are compared, not modelled (an indent-emission theorem is the next step)."),
+           "Partial: the colouring interpreters and the options are compared, not modelled; the interpreter clauses are tied by the helper bodies and output correspondence."),
   'note': TB,
-  'technique': 'Coq emission theorems for the compact interpreter + cross-variant differential harness over the generated type grammar',
+  'technique': 'Coq emission theorems for the compact and the indenting interpreter (same token sequence read back from both texts) over translated helper bodies + extracted-model correspondence + cross-variant differential harness over the generated type grammar',
  },
  'C03': {
   'text': ("Proof (Coq): the output of the emission discipline is the compact text of a token sequence generated by the grammar scalar | [ values ] | { members } "
